@@ -58,7 +58,7 @@ PLAN = {
     "C19": {
         "level": "exploration",
         "rule": RULE_TRACE,
-        "models": [MC("MC_P3_rem.cfg", W_REM)],
+        "models": [MC("MC_P3_rem.cfg", W_REM), MC("MC_P3_euclid.cfg", "div_euclid / rem_euclid / min / max transcriptions on all valid pairs (both signs of the dividend): floor/ceil quotient, remainder bound, exactness on integers", "thorough")],
         "traces": [T("arith_rem", (300, 20000), (12, 14))],
     },
     "C06": {
